@@ -100,6 +100,14 @@ CLAIMED.update({
             "§3 C07"),
 })
 
+CLAIMED.update({
+    "C17": ("exploration",
+            "bounded-exhaustive enumeration: Round on every d-digit mantissa x every decimal exponent (d<=3 all of -299..299; d=4 all exponents in thorough; d=5..7 at three exponents) each with its nextafter neighbours and the half-way point +-1 ulp; Dawson/Erfi/Inv_Erf on complete grids against long-double quadrature / Newton references; all pairs of a 12-value alphabet for the comparison helpers; all (l,m) with l<=12 x 144 directions for the harmonics",
+            "Oddness and idempotence of Round are demanded bit for bit, monotonicity along the sorted enumeration and the half-unit bound on 2.3e7 (quick) / 5.8e8 (thorough) arguments that sit exactly at and next to every representable decimal boundary - the places two hand-picked numbers never reach. Dawson within 2e-7 absolutely, Erfi within 1e-6 relatively, Inv_Erf within 1e-4 of a long-double inverse up to 1-1e-12; Sign/StepFunction/Relative_Difference/Floats_Equal consistent, reflexive and symmetric on all pairs including signed zeros and subnormals; Y_{l,-m} conjugation symmetry, vector Y = radial unit vector times Y_lm, Psi tangential and equal to theta^ dY/dtheta + phi^ (im/sin theta) Y with the derivative from the ladder relation, for every (l,m).",
+            "Grids, not the continuum, for Dawson/Erfi/Inv_Erf (|x|<=30 in steps of 1/64 plus both sides of |x|=0.2). The Psi identity is checked for sin(theta) > 1e-7 with a tolerance growing like 1/sin(theta); at the poles only tangentiality is checked.",
+            "§3 C17"),
+})
+
 NOT_APPLICABLE = {
 }
 
